@@ -37,11 +37,14 @@ def _worker_init() -> None:
     boot.boot()
 
 
-def run_one(prop: str, tape: Tape) -> dict:
+def run_one(prop: str, tape: Tape, idx: int | None = None) -> dict:
     """One simulated run, exceptions classified as harness errors."""
     mod = _load(prop)
     try:
-        res = mod.run(tape)
+        if idx is not None and hasattr(mod, "run_indexed"):
+            res = mod.run_indexed(idx, tape)      # enumerating checks map the run index to a case
+        else:
+            res = mod.run(tape)
     except BaseException as e:  # noqa: BLE001
         if isinstance(e, (KeyboardInterrupt, SystemExit)):
             raise
@@ -64,7 +67,7 @@ def _chunk(prop: str, base_seed: int, start: int, count: int, deadline: float | 
             break
         seed = derive_seed(base_seed, prop, i)
         tape = Tape(seed)
-        res = run_one(prop, tape)
+        res = run_one(prop, tape, idx=i)
         agg["runs"] += 1
         agg["evals"] += res.get("evals", 1)
         if res["harness"]:
@@ -143,9 +146,9 @@ def sig_of(v: dict) -> str:
 # minimisation (tape-level delta debugging)
 
 
-def _reproduces(prop: str, values: list[int], rule: str, known: list[dict], cause: dict | None = None) -> tuple[bool, dict | None, list[int]]:
+def _reproduces(prop: str, values: list[int], rule: str, known: list[dict], cause: dict | None = None, idx: int | None = None) -> tuple[bool, dict | None, list[int]]:
     tape = Tape(replay=values)
-    res = run_one(prop, tape)
+    res = run_one(prop, tape, idx=idx)
     if res["harness"]:
         return False, None, values
     for v in res["violations"]:
@@ -157,8 +160,8 @@ def _reproduces(prop: str, values: list[int], rule: str, known: list[dict], caus
     return False, None, values
 
 
-def minimise(prop: str, values: list[int], rule: str, known: list[dict], budget: int = 250, cause: dict | None = None) -> tuple[list[int], dict | None, int]:
-    ok, v, vals = _reproduces(prop, values, rule, known, cause)
+def minimise(prop: str, values: list[int], rule: str, known: list[dict], budget: int = 250, cause: dict | None = None, idx: int | None = None) -> tuple[list[int], dict | None, int]:
+    ok, v, vals = _reproduces(prop, values, rule, known, cause, idx)
     if not ok:
         return values, None, 1
     best, bestv = vals, v
@@ -169,7 +172,7 @@ def minimise(prop: str, values: list[int], rule: str, known: list[dict], budget:
         if used >= budget:
             return False
         used += 1
-        ok, vv, consumed = _reproduces(prop, cand, rule, known, cause)
+        ok, vv, consumed = _reproduces(prop, cand, rule, known, cause, idx)
         if ok and (len(consumed), sum(consumed)) < (len(best), sum(best)):
             best, bestv = consumed, vv
             return True
@@ -212,10 +215,10 @@ def minimise(prop: str, values: list[int], rule: str, known: list[dict], budget:
     return best, bestv, used
 
 
-def _min_job(prop: str, values: list[int], rule: str, cause: dict, budget: int) -> tuple[list[int], dict | None, int]:
+def _min_job(prop: str, values: list[int], rule: str, cause: dict, budget: int, idx: int | None = None) -> tuple[list[int], dict | None, int]:
     faulthandler.dump_traceback_later(900, exit=True)
     try:
-        return minimise(prop, values, rule, load_known(), budget, cause)
+        return minimise(prop, values, rule, load_known(), budget, cause, idx)
     finally:
         faulthandler.cancel_dump_traceback_later()
 
@@ -317,7 +320,7 @@ def main(argv: list[str] | None = None) -> int:
                 if args.no_minimise:
                     jobs[sig] = (v, None, vs)
                 else:
-                    jobs[sig] = (v, ex.submit(_min_job, prop, v["tape"], v["rule"], v["cause"], getattr(mod, "MIN_BUDGET", 200)), vs)
+                    jobs[sig] = (v, ex.submit(_min_job, prop, v["tape"], v["rule"], v["cause"], getattr(mod, "MIN_BUDGET", 200), v["idx"]), vs)
             for n_sig, (sig, (v, fut, vs)) in enumerate(jobs.items()):
                 rule = v["rule"]
                 tape_vals, vmin, used = v["tape"], None, 0
@@ -443,7 +446,7 @@ def replay(prop: str, path: str) -> int:
     tape = Tape(replay=rf["tape"], keep_labels=True)
     if os.environ.get("VERIF_SHOW_TRACE"):
         os.environ["VERIF_WANT_TRACE"] = "1"
-    res = run_one(prop, tape)
+    res = run_one(prop, tape, idx=rf.get("run_index"))
     if res["harness"]:
         print(f"REPLAY-HARNESS-ERROR {res['harness']}\n{res.get('tb', '')}")
         return 2
